@@ -505,8 +505,10 @@ class Gate(Transformation):
         # convert RegRefs back to indices for the backend API
         temp = [rr.ind for rr in reg]
         # call the child class specialized _apply method
-        self._apply(temp, backend, **kwargs)
-        self.p[0] = original_p0  # restore the original Parameter instance
+        try:
+            self._apply(temp, backend, **kwargs)
+        finally:
+            self.p[0] = original_p0  # restore the original Parameter instance
 
     def merge(self, other):
         if not self.__class__ == other.__class__:
